@@ -103,10 +103,17 @@ def one_param(draw, idx):
     fam, args = draw(family_args())
     dist, (lo, hi) = ref_dist(fam, args)
     positive = draw(st.booleans())
-    cls = draw(st.sampled_from(["interior", "interior", "edge_in", "edge_out", "outside", "on_boundary"]))
+    cls = draw(st.sampled_from(["interior", "interior", "edge_in", "edge_out", "outside", "on_boundary", "far_tail"]))
     eps = draw(st.sampled_from([1e-3, 1e-6, 1e-9, 1e-12]))
     side = draw(st.sampled_from(["lo", "hi"]))
-    if cls == "interior" or (fam == "gaussian" and cls != "outside") or (fam == "gaussian"):
+    if cls == "far_tail" and not (math.isfinite(lo) and math.isfinite(hi)):
+        # far out on an unbounded side of the support: tail probabilities down to 1e-80 (densities far below machine
+        # epsilon but well inside the representable range)
+        q = 10.0 ** (-draw(_fl(5, 80)))
+        x = float(dist.isf(q)) if (not math.isfinite(hi) and (math.isfinite(lo) or side == "hi")) else float(dist.ppf(q))
+        if not math.isfinite(x):
+            x = float(dist.ppf(0.5))
+    elif cls == "interior" or cls == "far_tail" or (fam == "gaussian" and cls != "outside") or (fam == "gaussian"):
         u = draw(_fl(1e-4, 1 - 1e-4))
         x = float(dist.ppf(u))
         cls = "interior"
@@ -137,7 +144,8 @@ def cases(draw):
     n = draw(st.sampled_from([1, 1, 2, 3, 4]))
     params = [draw(one_param(i)) for i in range(n)]
     surface = draw(st.sampled_from(["check_prior"] * 4 + ["posterior"]))
-    case = {"kind": "prior", "params": params, "surface": surface, "log_space": draw(st.booleans())}
+    case = {"kind": "prior", "params": params, "surface": surface, "log_space": draw(st.booleans()),
+            "prior_key_order": list(draw(st.permutations(range(n)))) if draw(st.booleans()) else None}
     if draw(st.integers(0, 2)) == 0:
         case["warmup"] = [draw(one_param(i)) for i in range(n)]
         case["switch"] = draw(st.sampled_from(["assign", "in_place"]))
@@ -158,9 +166,10 @@ def _model(n):
     return _model_cache[n]
 
 
-def _prior_dict(params):
+def _prior_dict(params, order=None):
+    """order: the key order of the dictionary (a dictionary's order carries no meaning: parameters are matched by name)."""
     d = {}
-    for p in params:
+    for p in ([params[i] for i in order] if order else params):
         d[p["name"]] = [p["family"]] + list(p["args"]) + (["positive"] if p["positive"] else [])
     return d
 
@@ -172,7 +181,9 @@ def check(case):
     params = case["params"]
     M = _model(0)
     names = [p["name"] for p in params]
-    prior = _prior_dict(params)
+    prior = _prior_dict(params, case.get("prior_key_order"))
+    if case.get("prior_key_order") and list(case["prior_key_order"]) != sorted(case["prior_key_order"]):
+        res.label("prior_dictionary_in_another_key_order")
     warm = case.get("warmup")
     if warm:
         # the interface object was used before with other prior specifications for the same parameter names; priors are
